@@ -21,13 +21,29 @@ def run(F, R, tier):
     if not h:
         return R.cannot("R10-arms", CMP, "anchor not found")
     body = h["body"]
+    # the pattern of the `contains` operator: bound by the `Contains(..)` arm, possibly re-bound by order-preserving lets
+    pat_names = set()
+    for q in walk(body):
+        if q.get("k") == "PTupleStruct" and norm(q["res"].get("path", "")).endswith("ComparisonOpExpr::Contains"):
+            pat_names |= set(pat_bindings(q))
+    changed = True
+    while changed:
+        changed = False
+        for st_ in exprs(body, "SLet"):
+            if "init" in st_ and st_["pat"].get("k") == "PBinding" and st_["pat"]["name"] not in pat_names:
+                root_, ch_ = chain(st_["init"])
+                if local_name(root_) in pat_names and all(c_["m"] in ("into", "clone", "to_vec", "into_boxed_slice", "as_ref", "to_owned") for c_ in ch_):
+                    pat_names.add(st_["pat"]["name"])
+                    changed = True
+    pos_names = {st_["pat"]["name"] for st_ in exprs(body, "SLet") if "init" in st_ and st_["pat"].get("k") == "PBinding" and
+                 any(c_["m"] == "random_range" for c_ in exprs(st_["init"], "MethodCall"))}
     # --- R10-arms
     rule = "R10-arms"
     target = None
     for n, st in walk_arms(body):
         if n.get("k") == "Match" and n["scrut"].get("ty") == "usize" and arm_variants(st, "ComparisonOpExpr") == ["Contains"]:
             sc = strip(n["scrut"])
-            if sc.get("k") == "MethodCall" and sc["m"] == "len" and local_name(sc["recv"]) == "bytes":
+            if sc.get("k") == "MethodCall" and sc["m"] == "len" and local_name(sc["recv"]) in pat_names:
                 target = (n, st)
     if not target:
         R.cannot(rule, CMP, "the match on the pattern length was not found")
@@ -43,7 +59,7 @@ def run(F, R, tier):
                 sta = cs.get("slice_to_array")
                 arr = cs.get("ArraySearcher")
                 ok = sta is not None and sta.get("targs") == [str(k)] and arr is not None and arr.get("targs", [None])[0] == str(k) and \
-                    "with_position" in cs and local_name(strip(sta["args"][0])) == "bytes"
+                    "with_position" in cs and local_name(strip(sta["args"][0])) in pat_names
                 R.check(ok, rule, CMP, "length %d -> ArraySearcher<%d> over slice_to_array::<%d>(bytes)" % (k, k, k),
                         "arm builds slice_to_array::<%s> / ArraySearcher<%s>: copy_from_slice panics when N differs from the pattern length" % (
                             sta.get("targs") if sta else None, arr.get("targs") if arr else None), a["sp"])
@@ -52,7 +68,7 @@ def run(F, R, tier):
                 R.check(ok and p.get("k") == "PWild", rule, CMP, "any other length -> BoxSearcher over the boxed pattern", where=a["sp"])
             wp = cs.get("with_position")
             if wp is not None:
-                R.check(local_name(wp["args"][1]) == "position", rule, CMP,
+                R.check(local_name(wp["args"][1]) in pos_names, rule, CMP,
                         "length %s: the searcher is anchored at `position`" % (k if k is not None else "other"), where=a["sp"])
         R.check(seen == set(range(2, 17)), rule, CMP, "array specialisations cover exactly lengths 2..=16", str(sorted(seen)), m["sp"])
         # gate: the match is inside `if *USE_AVX2`
@@ -122,7 +138,7 @@ def run(F, R, tier):
         ok = a.get("k") == "Struct" and norm(a["res"].get("path", "")) == "core::ops::range::Range"
         fl = {f["name"]: strip(f["e"]) for f in a.get("fields", [])} if ok else {}
         end = fl.get("end", {})
-        ok = ok and lit_value(fl.get("start", {})) == 1 and end.get("k") == "MethodCall" and end["m"] == "len" and local_name(end["recv"]) == "bytes"
+        ok = ok and lit_value(fl.get("start", {})) == 1 and end.get("k") == "MethodCall" and end["m"] == "len" and local_name(end["recv"]) in pat_names
         R.check(ok, rule, CMP, "anchor drawn from 1..bytes.len() (exclusive upper bound)",
                 "sliceslice requires position < needle length; an inclusive range can pick len", c["sp"])
         pre = preceding_stmts(body, c) or []
@@ -137,7 +153,7 @@ def run(F, R, tier):
     empty = one = False
     for i in exprs(body, "If", into_closures=False):
         c = strip(i["cond"])
-        if c.get("k") == "MethodCall" and c["m"] == "is_empty" and local_name(c["recv"]) == "bytes":
+        if c.get("k") == "MethodCall" and c["m"] == "is_empty" and local_name(c["recv"]) in pat_names:
             empty = any(last_seg(def_path(p) or "") == "EmptySearcher" for p in exprs(i["then"], "Path")) and bool(list(exprs(i["then"], "Ret")))
         if c.get("k") == "LetExpr" and c["pat"].get("k") == "PSlice" and len(c["pat"].get("before", [])) == 1 and "mid" not in c["pat"] and not c["pat"].get("after"):
             nm = pat_bindings(c["pat"])
@@ -150,10 +166,10 @@ def run(F, R, tier):
     else:
         R.cannot(rule, "EmptySearcher::compare", "anchor not found")
     mm = [c for c in exprs(body, "Call", into_closures=False) if norm(c.get("callee", "")) == "searcher::MemmemSearcher::new"]
-    R.check(len(mm) == 1 and local_name(mm[0]["args"][0]) == "bytes", rule, CMP, "scalar fallback -> MemmemSearcher::new(bytes)", where=h["span"])
+    R.check(len(mm) == 1 and local_name(mm[0]["args"][0]) in pat_names, rule, CMP, "scalar fallback -> MemmemSearcher::new(bytes)", where=h["span"])
     hm = E.hir("searcher::MemmemSearcher::new")
     if hm:
-        ok = any(c["m"] == "build_forward_owned" and local_name(c["args"][0]) == "needle" for c in exprs(hm["body"], "MethodCall"))
+        ok = any(c["m"] == "build_forward_owned" and is_param(c["args"][0], hm, 0) for c in exprs(hm["body"], "MethodCall"))
         R.check(ok, rule, "searcher::MemmemSearcher::new", "the finder is built for the given needle", where=hm["span"])
     hc = E.hirs(r"^<searcher::MemmemSearcher as ast::index_expr::Compare<U>>::compare$")
     if len(hc) == 1:
